@@ -766,6 +766,8 @@ fn run_request(s: &mut Session, fc: &FontCtx, req: &Req, tag: &str, deep: bool) 
         Ok(Ok(b)) => b,
         Ok(Err(e)) => {
             s.count(&format!("subset:Err({e})"));
+            // every font used here is well formed as far as the subsetter's own readers go: a refusal is a failure
+            s.oracle("subset-returns-ok", false, || input.clone(), || format!("subset_font returned Err({e})"));
             return None;
         }
         Err(e) => {
@@ -892,10 +894,13 @@ fn run_request(s: &mut Session, fc: &FontCtx, req: &Req, tag: &str, deep: bool) 
     }
     // per kept glyph: outline, advance, lsb
     let sub_locs = locations(&sub);
-    let hvar_kept = font.hvar().is_err() || sub.hvar().is_ok();
-    s.oracle("hvar-table-kept", hvar_kept, || input.clone(), || "the original has an HVAR table, subset_font returned Ok, the subset has none".into());
-    // without HVAR skrifa derives metric deltas from gvar phantom points instead: compare default-location metrics only
-    let (m_locs0, m_locs1): (&[Location], &[Location]) = if hvar_kept { (&fc.locs, &sub_locs) } else { (&fc.locs[..1], &sub_locs[..1]) };
+    // an HVAR whose variation store has no regions (all deltas zero) is dropped by design; skrifa then takes
+    // metric deltas from the gvar phantom points.  Either way the observable metrics must not change,
+    // so they are compared at every location.
+    if font.hvar().is_ok() && sub.hvar().is_err() {
+        s.count("hvar:dropped-from-subset");
+    }
+    let (m_locs0, m_locs1): (&[Location], &[Location]) = (&fc.locs, &sub_locs);
     let notdef_outline = req.flags & F_NOTDEF_OUTLINE != 0;
     let step = if deep || view.new_to_old_gid_list.len() <= 260 { 1 } else { view.new_to_old_gid_list.len() / 200 };
     let (mut bad_o, mut bad_a, mut bad_l) = (vec![], vec![], vec![]);
